@@ -502,7 +502,16 @@ func c09Observe(s *StateDB, nslots int) *c09Obs {
 }
 
 func c09AssertSameObs(p, q *c09Obs, nslots int, when string) {
+	c09AssertSameObsOf(p, q, nslots, when, [2]bool{true, true}, true)
+}
+
+// c09AssertSameObsOf compares the observables of the selected accounts and, if
+// global is set, the account-independent ones.
+func c09AssertSameObsOf(p, q *c09Obs, nslots int, when string, which [2]bool, global bool) {
 	for i := range c09Addrs {
+		if !which[i] {
+			continue
+		}
 		a, b := &p.accts[i], &q.accts[i]
 		vs.Assert(a.exist == b.exist, when+": Exist")
 		vs.Assert(a.empty == b.empty, when+": Empty")
@@ -515,6 +524,9 @@ func c09AssertSameObs(p, q *c09Obs, nslots int, when string) {
 		for k := 0; k < nslots; k++ {
 			vs.Assert(a.slots[k] == b.slots[k], when+": GetState")
 		}
+	}
+	if !global {
+		return
 	}
 	vs.Assert(p.refund == q.refund, when+": GetRefund")
 	vs.Assert(p.nlogs == q.nlogs, when+": GetLogs")
@@ -891,6 +903,21 @@ func c09RevertCheck(r *c09Run, cont *c09Op) {
 		}
 		c09AssertMirrors(a, i, r.mslots, "after Finalise")
 	}
+	oa, ob := c09Observe(a, r.nslots), c09Observe(b, r.nslots)
+	var early [2]bool
+	for i := range early {
+		early[i] = true
+	}
+	for _, i := range late {
+		early[i] = false
+	}
+	c09AssertSameObsOf(oa, ob, r.nslots, "after Finalise", early, true)
+	// lost-write protection (accounts outside the known-finding class)
+	for i := range c09Addrs {
+		if !touch[i] && !touchDirty[i] {
+			c09AssertCallbacks(a, i, "after revert")
+		}
+	}
 	for _, i := range late {
 		// Known findings: a reverted mutation leaves a clean account in
 		// stateObjectsDirty, so Finalise(true) deletes it if it is empty; the undo of
@@ -907,16 +934,13 @@ func c09RevertCheck(r *c09Run, cont *c09Op) {
 			vs.Known(c09KnownDirty, true)
 		}
 		c09AssertSameContentAt(a, b, i, "Finalise after revert vs Finalise of the pre-state")
+		var only [2]bool
+		only[i] = true
+		c09AssertSameObsOf(oa, ob, r.nslots, "after Finalise", only, false)
 	}
-	c09AssertSameObs(c09Observe(a, r.nslots), c09Observe(b, r.nslots), r.nslots, "after Finalise")
 
 	// (2) lost-write protection.  Known finding: the undo of a touch removes the
 	// dirty mark but does not give the object its onDirty callback back.
-	for i := range c09Addrs {
-		if !touch[i] && !touchDirty[i] {
-			c09AssertCallbacks(a, i, "after revert")
-		}
-	}
 	for i := range c09Addrs {
 		if touch[i] || touchDirty[i] {
 			vs.Known(c09KnownTouch, true)
